@@ -37,7 +37,13 @@ fn check_graph(n: usize, accs: &[Acc], es: &[(usize, usize, bool)], desc: &str, 
         if nodes != (0..n).map(|i| format!("info:{i}")).collect::<Vec<_>>() { fail(&format!("nodes {nodes:?}"), desc); }
         let ge: Vec<(usize, usize, u8)> = g.graph.raw_edges().iter().map(|e| (e.source().index(), e.target().index(), kind(e.weight))).collect();
         let ie: Vec<(usize, usize, u8)> = info.raw_edges().iter().map(|e| (e.source().index(), e.target().index(), kind(e.weight))).collect();
-        if ge != ie { fail(&format!("edges differ: fn_graph {ge:?} graph_info {ie:?} (kinds 0=Logic 1=Contains 2=Data)"), desc); }
+        if ge != ie {
+            if ge.len() > 60 {
+                let missing: Vec<_> = ge.iter().filter(|e| !ie.contains(e)).take(5).collect();
+                fail(&format!("edges differ: fn_graph has {} edges, graph_info {}; e.g. missing from graph_info: {missing:?} (kinds 0=Logic 1=Contains 2=Data)", ge.len(), ie.len()), &desc.chars().take(300).collect::<String>());
+            }
+            fail(&format!("edges differ: fn_graph {ge:?} graph_info {ie:?} (kinds 0=Logic 1=Contains 2=Data)"), desc);
+        }
         for (api, seq, rev) in [("iter", info.iter().cloned().collect::<Vec<_>>(), false), ("iter_rev", info.iter_rev().cloned().collect::<Vec<_>>(), true)] {
             let mut pos = vec![usize::MAX; n];
             for (k, s) in seq.iter().enumerate() {
@@ -93,5 +99,17 @@ fn main() {
         let desc = format!("large graph: n={n}, user edges(from,to,is_logic)={es:?}, writers of one type at distance");
         check_graph(n, &accs, &es, &desc, false);
     }
-    println!("OK c17_info: 3000 small graphs and graphs of 300 / 1100 / 4200 functions: nodes, edges with kinds, iter, iter_rev, YAML round trip");
+    // more than 65536 edges (sizes and indices that no longer fit in 16 bits): two layers, every function of the first before every
+    // function of the second (260 x 256 = 66560 logic edges), four writers of one type spread over both layers
+    {
+        let (a, b2) = (260usize, 256usize);
+        let n = a + b2;
+        let mut accs: Vec<Acc> = (0..n).map(|i| Acc { id: i, reads: vec![], writes: vec![] }).collect();
+        for i in [0usize, 1, a, a + 1] { accs[i].writes = vec![0]; }
+        let mut es: Vec<(usize, usize, bool)> = vec![];
+        for i in 0..a { for j in 0..b2 { es.push((i, a + j, true)); } }
+        let desc = format!("two complete layers {a} x {b2}: {} logic edges, writers of one type at 0, 1, {a}, {}", es.len(), a + 1);
+        check_graph(n, &accs, &es, &desc, false);
+    }
+    println!("OK c17_info: 3000 small graphs and graphs of 300 / 1100 / 4200 functions, one graph with 66560 edges: nodes, edges with kinds, iter, iter_rev, YAML round trip");
 }
